@@ -604,6 +604,32 @@ let run_case line =
                              c0 (match i0 with None -> "none" | Some i -> string_of_int i) own d (match p with None -> "none" | Some i -> string_of_int i))
         end) ps) zs) [0; 1]) ids) zs;
       (match !found with Some s -> "FOUND " ^ s | None -> "NONE")
+  | "slotsearch" :: _ ->
+      (* breadth-first search of the (finite) slot model with the constants generated from util/slot.rs for a
+         state that violates os_ok *)
+      let labels = [SLWrite; SLWDrop; SLW; SLTry; SLRDrop; SLR] in
+      let lab_str = function SLWrite -> "write" | SLWDrop -> "wdrop" | SLW -> "w" | SLTry -> "try_read" | SLRDrop -> "rdrop" | SLR -> "r" in
+      let seen = Hashtbl.create 1000 in
+      let q = Queue.create () in
+      Queue.add (os_init, []) q; Hashtbl.replace seen (Marshal.to_string os_init []) ();
+      let found = ref None and count = ref 0 in
+      while !found = None && not (Queue.is_empty q) && !count < 100000 do
+        let (s, path) = Queue.pop q in
+        incr count;
+        List.iter (fun l ->
+          if !found = None then
+            match os_step slot_gen s l with
+            | None -> ()
+            | Some s' ->
+                let key = Marshal.to_string s' [] in
+                if not (Hashtbl.mem seen key) then begin
+                  Hashtbl.replace seen key ();
+                  if not (os_ok s') then found := Some (List.rev (l :: path)) else Queue.add (s', l :: path) q
+                end) labels
+      done;
+      (match !found with
+       | Some path -> Printf.sprintf "FOUND states=%d | %s" !count (String.concat " " (List.map lab_str path))
+       | None -> Printf.sprintf "NONE states=%d" !count)
   | "crw" :: ops ->
       let op_of tok = match split_on ',' tok with
         | ["c"; i] -> CClone (nat_of_int (ios i))
